@@ -587,7 +587,7 @@ def _kind(dtype):
     try:
         d = _np.dtype(dtype)
     except TypeError:
-        return d
+        raise LeftFragment('dtype %r is not a NumPy dtype the facade knows' % (dtype,))
     if d.kind == 'f':
         return 'f'
     if d.kind in 'iu':
